@@ -211,7 +211,7 @@ def kind_of(v):
     return v[1] if v[0] == 'node' else None
 
 
-def history(rng, k, n, nested=0.5, invalid=0.03):
+def history(rng, k, n, nested=0.5, invalid=0.03, aliasing=True):
     """a random history over k variables; returns op lines (the shadow keeps paths mostly valid)"""
     sh = Shadow(k)
     ops = []
@@ -253,6 +253,25 @@ def history(rng, k, n, nested=0.5, invalid=0.03):
                     x = sh.read(sp, sh.v[j])
                     if x is not None:
                         sh.v[i], _ = sh.upd(p, lambda v: x, sh.v[i])
+        elif r < 0.462 and i < k:
+            # the converting constructors (root only)
+            r3 = rng.random()
+            if r3 < 0.45:
+                sc = rand_scalar(rng)
+                ops.append('csets %d %s' % (i, sc))
+                sh.v[i] = ('s', sc)
+            elif r3 < 0.7:
+                st = rand_str(rng)
+                ops.append('csetstr %d %s' % (i, hx(st)))
+                sh.v[i] = ('str', st)
+            else:
+                kd = rng.choice('mla')
+                items = [(rng.choice(KEYS) if kd == 'm' else '', rng.randrange(k)) for _ in range(rng.choice([0, 1, 2, 3]))]
+                ops.append('csetnode %d %s %s' % (i, kd, ','.join('%s:%d' % (hx(a), b) for a, b in items) or '-'))
+                keys, ch = [], []
+                for a, b in items:
+                    keys, ch = sh.cop(kd, ('ins', len(ch), a), sh.v[b], keys, ch)
+                sh.v[i] = ('node', kd, keys if kd == 'm' else [], ch)
         elif r < 0.49:
             ops.append('clear %d %s' % (i, path_tok(p)))
             if i < k:
@@ -272,6 +291,42 @@ def history(rng, k, n, nested=0.5, invalid=0.03):
                 ops.append('strapp %d %s %s' % (i, path_tok(p), hx(rng.choice(['', 'x', '0', '.5', 'e1', 'yz']))))
             if i < k:
                 sh.v[i], _ = sh.upd(p, lambda v: v if v[0] == 'str' else ('str', '?'), sh.v[i])
+        elif r < 0.71 and aliasing and i < k:
+            # assignment from a reference into a payload, mostly into the assigned Variant's own payload
+            if rng.random() < 0.7:
+                j = i
+            jj = j if j < k else 0
+            if jj == i and rng.random() < 0.6:
+                # a descendant of (or the same node as) the destination
+                sub = sh.read(p, sh.v[i])
+                rest = []
+                v = sub
+                while v is not None and v[0] == 'node' and v[3] and len(rest) < 3 and rng.random() < 0.8:
+                    i2 = rng.randrange(len(v[3]))
+                    rest.append((v[1], ('=', v[2][i2]) if v[1] == 'm' and rng.random() < 0.6 else ('#', i2)))
+                    v = v[3][i2]
+                sp = (p + rest) if sub is not None else sh.rand_path(rng, jj, p_stop=0.3)
+            else:
+                sp = sh.rand_path(rng, jj, p_stop=0.3, invalid=invalid)
+            src = sh.read(sp, sh.v[jj])
+            if src is not None and src[0] == 'str' and rng.random() < 0.9 or rng.random() < 0.15:
+                ops.append('assignstr %d %s %d %s' % (i, path_tok(p), j, path_tok(sp)))
+                if src is not None and src[0] == 'str':
+                    v1, ok = sh.upd(p, lambda v: v, sh.v[i])
+                    sh.v[i] = v1
+                    if ok:
+                        sh.v[i], _ = sh.upd(p, lambda v: src, sh.v[i])
+            else:
+                kd = src[1] if (src is not None and src[0] == 'node' and rng.random() < 0.85) else rng.choice('mla')
+                ops.append('assignnode %d %s %d %s %s' % (i, path_tok(p), j, path_tok(sp), kd))
+                v1, ok = sh.upd(p, lambda v: v, sh.v[i])
+                sh.v[i] = v1
+                if ok:
+                    x = sh.read(sp, sh.v[jj])
+                    if x is not None:
+                        keys, ch = sh.vopen(kd, x)
+                        nv = ('node', kd, keys, ch)
+                        sh.v[i], _ = sh.upd(p, lambda v: nv, sh.v[i])
         else:
             tk = kind_of(tgt) if tgt is not None else None
             kd = tk if (tk and rng.random() < 0.88) else rng.choice('mla')
@@ -319,6 +374,10 @@ PAYLOADS = {
     'array': ['setnode %v - a -:2,-:2'],
     'map': ['setnode %v - m 61:2,62:2'],
     'list2': ['setnode %v - l -:2', 'setnode %v - l -:%v,-:2', 'cont %v - l ins:9999:- %v l#0'],   # [[z],z,[z]] sharing its own child block
+    # containers holding an exclusively owned container of the same kind (the argument of `v = v.toList().front().toList()`)
+    'listlist': ['setnode %v - l -:2,-:2', 'setnode %v - l -:%v,-:2'],                           # [[z,z],z]
+    'arrarr': ['setnode %v - a -:2', 'setnode %v - a -:%v,-:2'],                                 # [[z],z] (arrays)
+    'mapmap': ['setnode %v - m 62:2', 'setnode %v - m 61:%v,62:2'],                              # {a:{b:z},b:z}
 }
 SHARERS = {
     'none': [],
@@ -340,7 +399,8 @@ NESTINGS = {
 def write_ops(tp):
     ops = []
     for kd in 'lam':
-        ops += ['cont 0 %s %s touch 2 -' % (tp, kd), 'cont 0 %s %s ins:9999:6b 2 -' % (tp, kd), 'cont 0 %s %s ins:0:61 2 -' % (tp, kd),
+        ops += ['cont 0 %s %s touch 2 -' % (tp, kd), 'cont 0 %s %s ins:9999:6b 2 -' % (tp, kd),
+                'cont 0 %s %s ins:%d:61 2 -' % (tp, kd, 9999 if kd == 'a' else 0),       # Array has no insert-at: append only
                 'cont 0 %s %s rem:0 2 -' % (tp, kd), 'cont 0 %s %s rem:1 2 -' % (tp, kd), 'cont 0 %s %s clr 2 -' % (tp, kd),
                 'cont 0 %s %s ins:9999:6b 1 -' % (tp, kd)]
     ops += ['cont 0 %s m remkey:61 2 -' % tp, 'cont 0 %s m remkey:7a 2 -' % tp]
@@ -348,6 +408,22 @@ def write_ops(tp):
     ops += ['sets 0 %s %s' % (tp, a) for a in ['n', 'b1', 'i7', 'u7', 'I7', 'U7', 'd1_0']]
     ops += ['setstr 0 %s 71' % tp, 'setstr 0 %s -' % tp, 'setnode 0 %s l -:2' % tp, 'setnode 0 %s m 61:0' % tp, 'setnode 0 %s a -' % tp,
             'clear 0 %s' % tp, 'assign 0 %s 2 -' % tp, 'assign 0 %s 1 -' % tp, 'assign 1 - 0 %s' % tp]
+    # assignment from a reference into a payload (operator=(const String&/List&/Array&/HashMap&)): from another
+    # variable, from the destination itself, from a descendant, from an ancestor
+    for kd in 'lam':
+        ops += ['assignnode 0 %s 1 - %s' % (tp, kd), 'assignnode 0 %s 0 %s %s' % (tp, tp, kd)]
+    ops += ['assignstr 0 %s 2 -' % tp, 'assignstr 0 %s 0 %s' % (tp, tp), 'assignstr 0 %s 1 -' % tp]
+    if tp == '-':
+        ops += ['assignnode 0 - 0 l#0 l', 'assignnode 0 - 0 l#2 l', 'assignnode 0 - 0 m=61 m', 'assignnode 0 - 0 a#0 a',
+                'assignnode 0 - 0 l#0 a', 'assignnode 0 - 0 m=61 l', 'assignstr 0 - 0 l#0', 'assignstr 0 - 0 l#1',
+                'assignstr 0 - 0 m=61', 'assignstr 0 - 0 m=62', 'assignstr 0 - 0 a#1', 'assignstr 0 - 0 l#0/l#0',
+                'assignstr 0 - 0 m=61/m=62', 'assignstr 0 l#1 0 l#0/l#0', 'assignnode 0 l#1 0 l#0 l']
+    else:
+        for kd in 'lam':
+            ops += ['assignnode 0 - 0 %s %s' % (tp, kd), 'assignnode 0 %s 0 - %s' % (tp, kd),
+                    'assignnode 0 %s 0 %s/%s#0 %s' % (tp, tp, kd, kd)]
+        ops += ['assignstr 0 - 0 %s' % tp, 'assignstr 0 %s 0 %s/l#0' % (tp, tp), 'assignstr 0 %s 0 %s/m=62' % (tp, tp),
+                'assignstr 0 - 0 l#1', 'assignstr 0 %s 0 l#1' % tp, 'assignstr 0 - 0 %s/l#0' % tp]
     if tp == '-':
         ops += ['assign 0 - 0 l#0', 'assign 0 - 0 m=61', 'assign 0 - 0 a#1', 'swap 0 1', 'swap 0 0', 'copynew 0 2', 'copynew 0 1',
                 'sets 0 l#0 i7', 'strapp 0 l#1 78', 'strapp 0 m=62 78', 'strapp 0 a#0 78', 'cont 0 l#0 l ins:0:- 0 l#1']
@@ -432,15 +508,33 @@ class C07(Check):
                    'sequential histories (no concurrent access to one payload)']
 
     def run_impl(self, cases, tag='impl'):
+        """as Check.run_impl with LeakSanitizer on; a stream on which the implementation crashes hundreds of times (every
+        crash restarts the harness) is run in pieces, after 1000 crashes the rest of the stream is not run (dropped by vf.py)"""
         from vf import run_exe_on_cases, BUILD
-        env = {'ASAN_OPTIONS': 'detect_leaks=1:abort_on_error=0:allocator_may_return_null=1:max_allocation_size_mb=2048',
-               'LSAN_OPTIONS': 'exitcode=0:print_suppressions=0'}
-        return run_exe_on_cases(self.exes['impl'], cases, os.path.join(BUILD, self.id, 'run'), tag, is_impl=True,
-                                per_case_timeout=self.per_case_timeout, env=env)
+        # leak_check_at_exit=0 instead of LSAN_OPTIONS=exitcode=0: the latter also made an ASan report exit with status 0,
+        # which vf.py takes for a complete run (the crashing case and every later case of the stream lost their output)
+        env = {'ASAN_OPTIONS': 'detect_leaks=1:leak_check_at_exit=0:abort_on_error=0:allocator_may_return_null=1:max_allocation_size_mb=2048',
+               'LSAN_OPTIONS': 'print_suppressions=0'}
+        rundir = os.path.join(BUILD, self.id, 'run')
+        res, crashes, i, total = [], {}, 0, 0
+        while i < len(cases):
+            chunk = cases[i:i + 300]
+            if total > 1000:
+                res += [['! notrun'] for _ in chunk]
+            else:
+                r, c = run_exe_on_cases(self.exes['impl'], chunk, rundir, tag, is_impl=True,
+                                        per_case_timeout=self.per_case_timeout, env=env)
+                res += r
+                for k, v in c.items():
+                    crashes[i + k] = v
+                total += len(c)
+            i += 300
+        return res, crashes
 
     def nontrivial(self, case, obs):
         shared = any(re.search(r':r([2-9]|\d\d)', l.split(' | ')[-1]) for l in obs if ' | ' in l)
-        kinds = {l.split()[3][0] for l in case if l.startswith('sets ')} | {'s' for l in case if l.startswith('setstr ')}
+        kinds = ({l.split()[3][0] for l in case if l.startswith('sets ')} | {l.split()[2][0] for l in case if l.startswith('csets ')}
+                 | {'s' for l in case if l.startswith(('setstr ', 'csetstr '))})
         return shared or len(kinds) >= 2
 
     def streams(self, tier, rng):
@@ -455,14 +549,17 @@ class C07(Check):
             pairs = [(a, b) for a in allv for b in allv]
         else:
             pairs = [(a, rng.choice(allv)) for a in allv for _ in range(3)]
-        for (a, b) in pairs:
-            cases.append(['@2', '%s 0 - %s' % a, '%s 1 - %s' % b])
+        def setop(x, i, ctor):
+            # the assignment operator, or the converting constructor, of the same alternative
+            return ('c%s %d %s' % (x[0], i, x[1])) if ctor else ('%s %d - %s' % (x[0], i, x[1]))
+        for n, (a, b) in enumerate(pairs):
+            cases.append(['@2', setop(a, 0, n % 2 == 1), setop(b, 1, n % 3 == 1)])
         out.append(Stream('coerce', cases, exhaustive=thorough,
                           note='every alternative (boundary scalars, %d strings) against %s' % (len(strs), 'every other' if thorough else '3 random others')))
         # 1b. the copy-on-write case split (all of it in the thorough tier, a third in the quick tier)
         cw = cowsplit_cases()
         if not thorough:
-            cw = [c for c in cw if rng.random() < 0.34]
+            cw = [c for c in cw if rng.random() < 0.25]
         out.append(Stream('cowsplit', cw, exhaustive=thorough,
                           note='payload kind x sharer x root/nested (inner/outer shared) x write operation, then probes on the sharers'))
         # 2. copy-on-write histories, one level
